@@ -128,9 +128,11 @@ impl OpKind {
     }
 }
 
+/// Exact mode means INTEGER data and integer coefficients only: then every value, every partial sum and every
+/// tangent / adjoint is an integer, and sums are exact in any order while magnitudes stay below the mantissa
+/// width. (Dyadic fractions are not enough: products of fractions need ever more fractional bits.)
 pub fn is_dyadic(k: f64) -> bool {
-    let s = k * 16.0;
-    s == s.trunc() && s.abs() <= 256.0
+    k == k.trunc() && k.abs() <= 65536.0
 }
 
 #[derive(Clone, Copy, Debug, PartialEq, Eq, Hash, Serialize, Deserialize)]
